@@ -2,6 +2,8 @@ import Driver.Seg
 import Driver.Neg
 import Driver.Store
 import Driver.Wire
+import Driver.Multi
+import Driver.Rec
 /- Line-protocol driver: `driver <topic>` reads one op per line on stdin, prints one line per op. -/
 open Driver
 
@@ -25,4 +27,6 @@ def main (args : List String) : IO UInt32 := do
   | ["neg"] => loop stdin stdout Driver.Neg.step (); return 0
   | ["store"] => loop stdin stdout Driver.Store.step {}; return 0
   | ["wire"] => loop stdin stdout Driver.Wire.step {}; return 0
+  | ["multi"] => loop stdin stdout Driver.Multi.step {}; return 0
+  | ["rec"] => loop stdin stdout Driver.Rec.step {}; return 0
   | _ => IO.eprintln "usage: driver <topic>"; return 2
